@@ -64,6 +64,8 @@ def run(tier, seed, regress=True, http=False):
     res = {"group": gname, "tier": tier, "seed": seed}
     # (1) the design, as modelled
     mcs = [model_check("MCXsStore.tla", c) for c in cfg["mc"]]
+    # key layout of the topic index (pure: ASSUMEs over all short byte strings)
+    mcs.append(model_check("XsKeys.tla", "MC_keys.cfg", workers=2))
     res["mc"] = mcs
     # (2) behaviours: TLC-generated + seeded random + committed regressions
     d = scratch(gname)
